@@ -150,6 +150,19 @@ CHECKS['C09'] = dict(
    technique='contract-based deductive verification of the value renderers and key ordering + bounded round-trip contracts',
    design_ref='DESIGN.md 5 C09')
 
+CHECKS['C16'] = dict(
+   category='other',
+   text='Mixed. Exhaustive-domain (real functions, complete finite domains): csvw_date_format_to_md_date_format gives the strptime '
+        'directive for every separator-delimited sequence of <= 2 (quick) / 3 (thorough) of the 12 documented tokens over the six '
+        'separators; CSVW_TYPE_TO_MTYPE and MTYPE_TO_PANDAS_DTYPE are total over the 46 documented datatypes and compose to the dtype '
+        'family or a date parser. Bounded (labelled): instants written with 10 composed patterns are read back exactly by the translated '
+        'format; seeded CSV files (integer/number/string/boolean/datetime with nulls) x delimiters x encodings x header present/absent x '
+        'boolean spellings load through csv2pandas with the same names, declared types and values.',
+   note='Trusted: str.replace semantics (extension of the token result to longer separator-delimited formats), pandas.read_csv, strptime. '
+        'Formats with adjacent tokens are outside the property.',
+   technique='exhaustive-domain contract checking of the translation and type tables + bounded round-trip contracts',
+   design_ref='DESIGN.md 5 C16')
+
 NA_REASON = 'check under construction in this session (see DESIGN.md 8, build order)'
 
 def main():
